@@ -23,19 +23,27 @@ import (
 // source root
 
 type c14Case struct {
-	Src    *h.Tree  `json:"src"`
-	Dst    *h.Tree  `json:"dst"`
-	SrcArg string   `json:"srcarg"`
-	DstArg string   `json:"dstarg"`
-	Follow bool     `json:"follow"`
-	Opts   h.CpOpts `json:"opts"`
+	Src     *h.Tree  `json:"src"`
+	Dst     *h.Tree  `json:"dst"`
+	SrcArg  string   `json:"srcarg"`
+	DstArg  string   `json:"dstarg"`
+	Follow  bool     `json:"follow"`
+	Opts    h.CpOpts `json:"opts"`
+	Include []string `json:"include,omitempty"`
+	Exclude []string `json:"exclude,omitempty"`
+	Mode    *int     `json:"mode,omitempty"` // octal mode option
+	Chown   []int    `json:"chown,omitempty"`
 }
 
 type c14JailArg struct {
-	SrcArg string   `json:"srcarg"`
-	DstArg string   `json:"dstarg"`
-	Follow bool     `json:"follow"`
-	Opts   h.CpOpts `json:"opts"`
+	SrcArg  string   `json:"srcarg"`
+	DstArg  string   `json:"dstarg"`
+	Follow  bool     `json:"follow"`
+	Opts    h.CpOpts `json:"opts"`
+	Include []string `json:"include,omitempty"`
+	Exclude []string `json:"exclude,omitempty"`
+	Mode    *int     `json:"mode,omitempty"`
+	Chown   []int    `json:"chown,omitempty"`
 }
 
 type c14JailResult struct {
@@ -47,7 +55,12 @@ func jailCopy(raw json.RawMessage) (any, error) {
 	if err := json.Unmarshal(raw, &a); err != nil {
 		return nil, err
 	}
-	ci := fscopy.CopyInfo{FollowLinks: a.Follow, CopyDirContents: a.Opts.DirContents, AlwaysReplaceExistingDestPaths: a.Opts.AlwaysReplace, AllowWildcards: a.Opts.Wildcards}
+	ci := fscopy.CopyInfo{FollowLinks: a.Follow, CopyDirContents: a.Opts.DirContents, AlwaysReplaceExistingDestPaths: a.Opts.AlwaysReplace, AllowWildcards: a.Opts.Wildcards,
+		IncludePatterns: a.Include, ExcludePatterns: a.Exclude, Mode: a.Mode}
+	if a.Chown != nil {
+		uid, gid := a.Chown[0], a.Chown[1]
+		ci.Chown = func(*fscopy.User) (*fscopy.User, error) { return &fscopy.User{UID: uid, GID: gid}, nil }
+	}
 	err := fscopy.Copy(context.Background(), "/src", a.SrcArg, "/dst", a.DstArg, fscopy.WithCopyInfo(ci))
 	res := &c14JailResult{}
 	if err != nil {
@@ -93,6 +106,57 @@ func genC14(t *rapid.T) *c14Case {
 		c.Opts.Wildcards = true
 		c.SrcArg = rapid.SampledFrom([]string{"*", "l/*", "*/a", "a*", "l*", "?"}).Draw(t, "glob")
 	}
+	// include/exclude patterns delay the creation of parent directories
+	if rapid.IntRange(0, 2).Draw(t, "patterns") == 0 {
+		c.Include = h.GenPatterns(t, c.Src, "inc", 2)
+		c.Exclude = h.GenPatterns(t, c.Src, "exc", 2)
+		if rapid.Bool().Draw(t, "deeppattern") {
+			c.Include = append(c.Include, rapid.SampledFrom([]string{"a/*/c", "*/*/*", "**/c", "l/*/a", "*/b/*", "**/a"}).Draw(t, "deep"))
+		}
+	}
+	// steered scenario: patterns that delay the creation of a parent directory, and a
+	// destination symlink sitting exactly where that parent would go
+	if rapid.IntRange(0, 3).Draw(t, "delayedparent") == 0 {
+		d1 := rapid.SampledFrom([]string{"a", "b", "d"}).Draw(t, "dp1")
+		d2 := rapid.SampledFrom([]string{"a", "b", "c"}).Draw(t, "dp2")
+		f := rapid.SampledFrom([]string{"c", "a", "l"}).Draw(t, "dpf")
+		src := &h.Tree{Nodes: []h.Node{
+			{Path: d1, Kind: h.KDir, Perm: 0o755}, {Path: d1 + "/" + d2, Kind: h.KDir, Perm: 0o755},
+			{Path: d1 + "/" + d2 + "/" + f, Kind: h.KFile, Perm: 0o644},
+		}}
+		for _, n := range c.Src.Nodes {
+			if n.Path != d1 && !strings.HasPrefix(n.Path, d1+"/") {
+				src.Nodes = append(src.Nodes, n)
+			}
+		}
+		src.Normalize()
+		c.Src = src
+		c.Include = []string{rapid.SampledFrom([]string{d1 + "/*/" + f, "**/" + f, "*/" + d2 + "/*", d1 + "/" + d2 + "/" + f}).Draw(t, "dppat")}
+		c.Exclude = nil
+		if rapid.Bool().Draw(t, "dpexc") {
+			c.Include = nil
+			c.Exclude = []string{d1, "!" + d1 + "/" + d2 + "/" + f}
+		}
+		tg := rapid.SampledFrom([]string{"/outside/dir", "../outside/dir", "/outside/dir/" + d1}).Draw(t, "dptarget")
+		dst := &h.Tree{}
+		if rapid.Bool().Draw(t, "dpdeep") {
+			dst.Nodes = []h.Node{{Path: d1, Kind: h.KDir, Perm: 0o755}, {Path: d1 + "/" + d2, Kind: h.KSymlink, Target: tg}}
+		} else {
+			dst.Nodes = []h.Node{{Path: d1, Kind: h.KSymlink, Target: tg}}
+		}
+		dst.Normalize()
+		c.Dst = dst
+		c.SrcArg, c.DstArg = "/", "/"
+		c.Opts.Wildcards = false
+	}
+	// metadata options: applied with chmod/chown/utimes calls that must not follow links
+	if rapid.IntRange(0, 2).Draw(t, "modeopt") == 0 {
+		m := rapid.SampledFrom([]int{0o700, 0o644, 0o4755, 0}).Draw(t, "mode")
+		c.Mode = &m
+	}
+	if rapid.IntRange(0, 3).Draw(t, "chownopt") == 0 {
+		c.Chown = []int{4242, 4343}
+	}
 	// unique, non-empty contents so bytes can be traced to their origin
 	for i := range c.Src.Nodes {
 		if n := &c.Src.Nodes[i]; n.Kind == h.KFile && n.LinkTo == "" {
@@ -123,6 +187,25 @@ func c14Check(env *h.Env, c *c14Case) error {
 			return h.Infra(err)
 		}
 	}
+	// mirror the source tree's shape below outside/dir (sentinel content), so that a path
+	// reached through an out-pointing directory link exists and could be removed or overwritten
+	mirror := append([]h.Node{}, c.Src.Nodes...)
+	for _, n := range c.Src.Nodes {
+		// also below outside/dir/<first component> and with the first component dropped
+		if i := strings.Index(n.Path, "/"); i > 0 {
+			m := n
+			m.Path = n.Path[i+1:]
+			mirror = append(mirror, m)
+		}
+	}
+	for _, n := range mirror {
+		p := filepath.Join(jail, "outside/dir", filepath.FromSlash(n.Path))
+		if n.Kind == h.KDir {
+			os.MkdirAll(p, 0o755)
+		} else if _, err := os.Lstat(filepath.Dir(p)); err == nil {
+			os.WriteFile(p, []byte("OUTSIDE mirror of "+n.Path), 0o600)
+		}
+	}
 	if err := h.Materialise(c.Src, filepath.Join(jail, "src")); err != nil {
 		return h.Infra(err)
 	}
@@ -134,7 +217,7 @@ func c14Check(env *h.Env, c *c14Case) error {
 		return h.Infra(err)
 	}
 	var res c14JailResult
-	if err := runJailed(jail, "copy", 0, c14JailArg{SrcArg: c.SrcArg, DstArg: c.DstArg, Follow: c.Follow, Opts: c.Opts}, &res); err != nil {
+	if err := runJailed(jail, "copy", 0, c14JailArg{SrcArg: c.SrcArg, DstArg: c.DstArg, Follow: c.Follow, Opts: c.Opts, Include: c.Include, Exclude: c.Exclude, Mode: c.Mode, Chown: c.Chown}, &res); err != nil {
 		var crash *helperCrash
 		if errors.As(err, &crash) {
 			return fmt.Errorf("Copy(src=%q dst=%q): the copying %v", c.SrcArg, c.DstArg, crash)
@@ -145,7 +228,10 @@ func c14Check(env *h.Env, c *c14Case) error {
 	if err != nil {
 		return h.Infra(err)
 	}
-	what := fmt.Sprintf("Copy(src=%q, dst=%q, follow=%v, dir-contents=%v, always-replace=%v, wildcards=%v) -> err=%q", c.SrcArg, c.DstArg, c.Follow, c.Opts.DirContents, c.Opts.AlwaysReplace, c.Opts.Wildcards, res.Err)
+	what := fmt.Sprintf("Copy(src=%q, dst=%q, follow=%v, dir-contents=%v, always-replace=%v, wildcards=%v, include=%q, exclude=%q) -> err=%q", c.SrcArg, c.DstArg, c.Follow, c.Opts.DirContents, c.Opts.AlwaysReplace, c.Opts.Wildcards, c.Include, c.Exclude, res.Err)
+	if len(c.Include)+len(c.Exclude) > 0 {
+		env.Class("patterns")
+	}
 	// non-trivial: a symlink that leaves a root lies on a path the copy may touch
 	leaves := func(tr *h.Tree, arg string) bool {
 		for _, n := range tr.Nodes {
